@@ -219,7 +219,8 @@ class Unreadable(list):
 
     def __init__(self, exc):
         super().__init__()
-        self.cls = type(exc).__name__
+        mod = type(exc).__module__
+        self.cls = type(exc).__name__ if mod in ('builtins', None) else '%s.%s' % (mod, type(exc).__name__)
         self.msg = str(exc)
 
 
